@@ -179,7 +179,12 @@ class ManageSieveConnection:
             match = self._literal_plus.search(line)
             if not match:
                 break
-            literal_length = int(match.group(1))
+            try:
+                literal_length = int(match.group(1))
+            except ValueError:
+                # more digits than sys.get_int_max_str_digits() allows: no
+                # literal is read and the command parser refuses the line
+                break
             data += await self.reader.readexactly(literal_length)
         self._print('%d -->| %s', data)
         return memoryview(data)
